@@ -190,6 +190,47 @@ pub fn gen_len(t: &mut Tape, o: &mut PayOpts) -> usize {
     }
 }
 
+/// give one string / binary / raw leaf of the forest a payload of `n` bytes (returns false if there is no such leaf)
+pub fn enlarge_one_leaf(t: &mut Tape, forest: &mut [Node], n: usize) -> bool {
+    fn count(f: &[Node]) -> usize {
+        f.iter().map(|x| match &x.kind {
+            NodeKind::Leaf(Payload::S(_)) | NodeKind::Leaf(Payload::B(_)) | NodeKind::Leaf(Payload::Raw(_)) => 1,
+            NodeKind::Master(ch) => count(ch),
+            _ => 0,
+        }).sum()
+    }
+    fn set(f: &mut [Node], k: &mut usize, t: &mut Tape, n: usize) -> bool {
+        for x in f.iter_mut() {
+            match &mut x.kind {
+                NodeKind::Leaf(p @ Payload::S(_)) | NodeKind::Leaf(p @ Payload::B(_)) | NodeKind::Leaf(p @ Payload::Raw(_)) => {
+                    if *k == 0 {
+                        *p = match p {
+                            Payload::S(_) => Payload::S(gen_string(t, n)),
+                            Payload::B(_) => Payload::B(t.filler(n)),
+                            _ => Payload::Raw(t.filler(n)),
+                        };
+                        return true;
+                    }
+                    *k -= 1;
+                }
+                NodeKind::Master(ch) => {
+                    if set(ch, k, t, n) {
+                        return true;
+                    }
+                }
+                _ => {}
+            }
+        }
+        false
+    }
+    let c = count(forest);
+    if c == 0 {
+        return false;
+    }
+    let mut k = t.below(c);
+    set(forest, &mut k, t, n)
+}
+
 pub fn gen_u64(t: &mut Tape) -> u64 {
     match t.weighted(&[3, 5, 4]) {
         0 => t.below(300) as u64,
@@ -546,8 +587,26 @@ pub fn sanitize_unknown(spec: &SpecTable, forest: &mut [Node], writer_view: bool
                 let global_path = spec.get(n.id).map(|e| e.is_global()).unwrap_or(true);
                 let mut clear = false;
                 if global_path {
-                    *c1 += 1;
-                    clear = true;
+                    // "sibling" is not defined for a master whose own path has a placeholder, so such a master may only keep its unknown size
+                    // where the question never arises: nothing follows it at its own level (an enclosing master's end, a higher-level
+                    // element or the end of input closes it), and nothing inside it would close it by the reference rule (a declared
+                    // sibling, i.e. an element of the identical path, or an element of an ancestor's type)
+                    fn any_desc(n: &Node, f: &dyn Fn(&Node) -> bool) -> bool {
+                        n.children().iter().any(|c| f(c) || any_desc(c, f))
+                    }
+                    let m_id = n.id;
+                    // (for this purpose "would close" ignores the exemption of global elements: an element that is global AND of an ancestor's
+                    // type, or of the identical path, is exactly the case the statement answers both ways)
+                    let m_path = spec.get(m_id).map(|e| e.path.clone()).unwrap_or_default();
+                    let inner_closer = any_desc(n, &|d| {
+                        ref_closes(spec, m_id, d.id)
+                            || m_path.iter().any(|p| matches!(p, PathPart::Id(x) if *x == d.id))
+                            || spec.get(d.id).map(|e| e.path == m_path || e.is_root()).unwrap_or(false)
+                    });
+                    if next_id.is_some() || inner_closer {
+                        *c1 += 1;
+                        clear = true;
+                    }
                 } else if let Some(nx) = next_id {
                     if !ref_closes(spec, n.id, nx) {
                         *c2 += 1;
